@@ -1071,8 +1071,16 @@ func c20Audit(ctx *Ctx, res *Result, tally *c20Tally) {
 // ---------- run / replay ----------
 
 func runC20(ctx *Ctx) *Result {
-	res := &Result{Rule: "scripts over {load f o, fix through a view, save a view, modify on disk + evict}: every canonical word of length L (= all words of length <= L as prefixes) over the 12-symbol alphabet {load a/b/c.mk x 2 option sets, fix/save through the last/previous view, rewrite a.mk/b.mk}, capacity 2 and 3, modes default/-f/-F, then seeded random scripts up to length 60 (5 cached files + 1 uncached, capacity 1-4, all five fix operations, removal, empty files); non-trivial = a script in which, according to the model run that matched the real run, at least one Load was served by the cache, missed because of other options, or made removeOldEntries run, or a save/modify evicted an entry (counted per script; the enumerated words are pairwise distinct, random scripts are deduplicated by their request string per worker); whole runs: 7 two/three-package scenarios x 7 sets of fixable lines x {default, -F, --show-autofix} x {explicit arguments, -r}"}
+	res := &Result{Rule: "scripts over {load f o, fix through a view, save a view, modify on disk + evict}: every canonical word of length L (= all words of length <= L as prefixes) over the 12-symbol alphabet {load a/b/c.mk x 2 option sets, fix/save through the last/previous view, rewrite a.mk/b.mk}, capacity 2 and 3, modes default/-f/-F, then seeded random scripts up to length 60 (5 cached files + 1 uncached, capacity 1-4, all five fix operations, removal, empty files); non-trivial = a script in which, according to the model run that matched the real run, at least one Load was served by the cache, missed because of other options, or made removeOldEntries run, or a save/modify evicted an entry (counted per script; the enumerated words are pairwise distinct, random scripts are deduplicated by their request string per worker); whole runs: 7 two/three-package scenarios x 7 sets of fixable lines x {default, -F, --show-autofix} x {explicit arguments, -r}, combined run against one fresh process per package, plus Main in process followed by a reload of every file still cached"}
 	tally := &c20Tally{}
+	// scratch directories of workers that were killed (timeout) are left on the tmpfs
+	if old, _ := filepath.Glob("/dev/shm/verif-c20-*"); len(old) > 0 {
+		for _, d := range old {
+			if st, err := os.Stat(d); err == nil && time.Since(st.ModTime()) > 2*time.Hour {
+				_ = os.RemoveAll(d)
+			}
+		}
+	}
 	maxLen, randCount, randLen := 6, 3000, 60
 	if ctx.Tier == "thorough" {
 		maxLen, randCount = 7, 60000
